@@ -5,7 +5,7 @@
    env   := (crlf multi invert after quit convert)
    tables:= list of (hay table)       table[p] = find_at(hay, p) as () or ((s e))
    file  := (path input events fins)  path := () | (bytes)
-   event := (0 rs re lnum off) | (1 bytes kind lnum off) | (2) | (3 off)     lnum := () | (n)
+   event := (0 rs re lnum off [buf]) | (1 bytes kind lnum off) | (2) | (3 off)     lnum := () | (n)
    fins  := list of (byte_count binopt): [0] when begin is refused, [1+k] when event k is refused,
             [1+#events] after a complete search
    mode  := (0 kind stats path max exclude_zero sep_field path_term)
@@ -38,7 +38,9 @@ Definition dec_kind (n : N) : ctx_kind :=
 Definition dec_event (input : bytes) (v : val) : sevent :=
   let t := as_N (fld 0 v) in
   if (t =? 0)%N then
-    SMatched (mkSM input (as_nat (fld 1 v)) (as_nat (fld 2 v)) (as_option as_nat (fld 3 v)) (as_nat (fld 4 v)))
+    (* field 5, when present: the buffer the searcher handed over, if it is not the searched slice itself *)
+    SMatched (mkSM (match as_option as_bytes (fld 5 v) with Some b => b | None => input end)
+                   (as_nat (fld 1 v)) (as_nat (fld 2 v)) (as_option as_nat (fld 3 v)) (as_nat (fld 4 v)))
   else if (t =? 1)%N then
     SContext (mkSC (as_bytes (fld 1 v)) (dec_kind (as_N (fld 2 v))) (as_option as_nat (fld 3 v)) (as_nat (fld 4 v)))
   else if (t =? 2)%N then SBreak
